@@ -21,7 +21,7 @@ def CState.setNode (st : CState) (n : Node) : CState :=
   if st.nodes.any (·.id = n.id) then { st with nodes := st.nodes.map (fun x => if x.id = n.id then n else x) }
   else { st with nodes := st.nodes ++ [n] }
 
-def nodeIdx (s : String) : Option Nat := s.toNat?.filter (· < 4)
+def nodeIdx (s : String) : Option Nat := s.toNat?.filter (· < 6)
 
 def sortStrs (xs : List String) : List String := sortBy (fun (a b : String) => a < b) xs
 
@@ -168,6 +168,7 @@ def step (st : CState) (toks : List String) : Option (CState × String) :=
       else if a = i ∨ st.ensured.contains (i, a) then handleNeed node a nd
       else []
     pure (st.setNode node, s!"ok msgs={showList (msgs.map showItemFull) ";"}")
+  | ["tag", _] => pure (st, "ok")
   | ["nstate", n] => do
     let i ← nodeIdx n
     pure (st.setNode (st.node i), showState (st.node i).syncState)
